@@ -1,7 +1,7 @@
 (* Search/NumericCorr.v — correspondence cases for the numeric engine: each case carries
    the implementation's observed output; check re-computes it with the model. *)
 From Coq Require Import ZArith List Bool.
-From Bluge Require Import Base.Int64 Base.Res Base.Corr Gen.Params Search.Numeric.
+From Bluge Require Import Base.Int64 Base.Res Base.Corr Gen.ParamsNumeric Search.Numeric.
 Import ListNotations.
 Open Scope Z_scope.
 
